@@ -58,18 +58,26 @@ func errorResultIndex(f *ssa.Function) int {
 	return -1
 }
 
+// returnsOf lists the Return instructions of f, ignoring the synthetic recover block (reached only when a
+// deferred call recovers from a panic; it returns the current values of the result cells).
+func returnsOf(f *ssa.Function) []*ssa.Return {
+	var out []*ssa.Return
+	for _, b := range f.Blocks {
+		if b == f.Recover || len(b.Instrs) == 0 {
+			continue
+		}
+		if ret, ok := b.Instrs[len(b.Instrs)-1].(*ssa.Return); ok {
+			out = append(out, ret)
+		}
+	}
+	return out
+}
+
 // successReturns: Return instructions of f whose error result is the nil constant (or which have no error result).
 func successReturns(f *ssa.Function) []*ssa.Return {
 	ei := errorResultIndex(f)
 	var out []*ssa.Return
-	for _, b := range f.Blocks {
-		if len(b.Instrs) == 0 {
-			continue
-		}
-		ret, ok := b.Instrs[len(b.Instrs)-1].(*ssa.Return)
-		if !ok {
-			continue
-		}
+	for _, ret := range returnsOf(f) {
 		if ei < 0 || ei >= len(ret.Results) || isNilConst(ret.Results[ei]) || mayBeNilValue(ret.Results[ei], 0) {
 			out = append(out, ret)
 		}
